@@ -32,7 +32,9 @@ var setupOnce sync.Once
 
 func setup() {
 	setupOnce.Do(func() {
-		if os.Getenv("C14_NODEBUG") == "" { os.Setenv("ARDOP_DEBUG", "1") } // makes the library log evictions (and everything else, which is discarded)
+		if os.Getenv("C14_NODEBUG") == "" {
+			os.Setenv("ARDOP_DEBUG", "1")
+		} // makes the library log evictions (and everything else, which is discarded)
 		log.SetOutput(logFilter{})
 	})
 }
